@@ -60,7 +60,9 @@ def validate_traces(stage, module, cfg, traces, shards=None, timeout=900, heap='
     """traces: list of lists of line dicts (each line has tid, k).  Returns (fails, nlines, wall)
     where fails is a list of (tid, k, clause).  Every shard must report DONE with its line count."""
     traces = [t for t in traces if t]
-    shards = min(shards or C.NCPU, max(1, len(traces)))
+    total = sum(len(t) for t in traces)
+    # a JVM costs a few CPU-seconds to start and parse the modules: do not shard small batches finely
+    shards = min(shards or C.NCPU, max(1, len(traces)), max(1, total // 1200))
     files = []
     counts = []
     for s in range(shards):
